@@ -189,6 +189,17 @@ def main():
             body.insert(rng.randrange(0, len(body) + 1),
                         ('action', rng.choice(['on', 'off']), [('light', ('str', 'N'))]))
             stats['other_light_in_block'] = stats.get('other_light_in_block', 0) + 1
+        if rng.random() < 0.25:
+            # an earlier row/column command that reaches no matrix (a plain bulb, a strip, a name
+            # nobody has): it transmits nothing and the range it names must not survive into the
+            # command under test, whose omitted clauses mean the full extent
+            a, c0 = rng.randrange(h), rng.randrange(w)
+            stray = ('matrix', ('str', rng.choice(['S', 'S', 'Other', 'Nobody'])),
+                     (num(a), num(rng.randrange(a, h))), (num(c0), num(rng.randrange(c0, w))), False)
+            if rng.random() < 0.3:
+                stray = stray[:2] + (stray[2], None, False) if rng.random() < 0.5 else stray[:2] + (None, stray[3], True)
+            pre = pre + [('action', 'set', [stray])]
+            stats['stray_matrix_command_first'] = stats.get('stray_matrix_command_first', 0) + 1
         if inline:
             regs_stmts, rows_rv, cols_rv, cf = body
             prog = pre + helpers + regs_stmts + \
@@ -197,7 +208,9 @@ def main():
             prog = pre + helpers + [('action', 'set', [('matrix_block', ('str', 'M'), body)])]
         pop = [{'label': 'M', 'kind': 'matrix', 'height': h, 'width': w,
                 'cells': [[9, 9, 9, 9]] * (h * w)},
-               {'label': 'N', 'kind': 'matrix', 'height': 2, 'width': 2}]
+               {'label': 'N', 'kind': 'matrix', 'height': 2, 'width': 2},
+               {'label': 'S', 'kind': 'plain'},
+               {'label': 'Other', 'kind': 'multizone', 'zones': [[7, 7, 7, 7]] * 3}]
         c = progcheck.Case(prog, pop, label='inline' if inline else 'block')
         c.expect = ('matrix', h, w, mode, default, stages)
         cases.append(c)
